@@ -18,7 +18,7 @@ VARIABLES chain, done
 vars == <<chain, done>>
 Init == chain = <<>> /\ done = FALSE
 \* large values (see AllMethods): at most one of them per chain - beyond 64 KiB a buffer is not pooled, by design
-Big == {"StrBig", "BytesBig"}
+Big == {"StrBig", "BytesBig", "StrLongEsc"}
 Add(m) == /\ ~done /\ Len(chain) < MaxLen /\ (m \in Big => \A i \in 1..Len(chain) : chain[i] \notin Big)
           /\ chain' = Append(chain, m) /\ UNCHANGED done
 Stop == ~done /\ Len(chain) > 0 /\ done' = TRUE /\ UNCHANGED chain
@@ -33,7 +33,7 @@ AllMethods == {"Str", "Strs", "Bytes", "Hex", "Bool", "Bools", "Int", "Ints", "I
                "ArrayEmpty", "DictEmpty", "StrsEmpty", "IntsNil", "BytesEmpty", "StrEmpty", "ErrNil", "TimesEmpty",
                \* one large value: the buffer grows to the largest capacity that is still pooled (Str: 60 000 bytes, capacity exactly
                \* 64 KiB; Bytes: 45 000 bytes, 48 KiB and - with more fields after it - 64 KiB)
-               "StrBig", "BytesBig",
+               "StrBig", "BytesBig", "StrLongEsc",      \* StrLongEsc: 12 000 bytes, a quote at the very start and a few more later
                \* arguments BUILT AT THE CALL SITE (slice literals of variables): no allocation as long as the methods do not let their parameters escape
                "IntsInline", "StrsInline", "Floats64Inline", "BoolsInline", "TimesInline", "DursInline"}
 
